@@ -279,6 +279,183 @@ build!(g_member_method_changed, {
     cglue_trait_group!(Grp, { Mb, Ma }, { Ob, Oa });
 });
 
+// ---- external traits (#[cglue_trait_ext] objects, groups with an `ext::` member) -------------------
+// (written out in full: a macro_rules wrapper would give the generated `self` another hygiene context)
+pub mod xbase {
+    pub mod foreign { pub trait Shape { fn area(&self, scale: u32) -> u32; fn grow(&mut self, by: u32); } }
+    pub mod glue {
+        use super::foreign::Shape;
+        use cglue::*;
+        #[cglue_trait_ext]
+        pub trait Shape { fn area(&self, scale: u32) -> u32; fn grow(&mut self, by: u32); }
+        #[cglue_trait]
+        pub trait Own { fn own(&self) -> u32; }
+        cglue_trait_group!(XG, Own, { ext::Shape }, { pub trait Shape { fn area(&self, scale: u32) -> u32; fn grow(&mut self, by: u32); } });
+    }
+}
+pub mod xsame {
+    pub mod foreign { pub trait Shape { fn area(&self, scale: u32) -> u32; fn grow(&mut self, by: u32); } }
+    pub mod glue {
+        use super::foreign::Shape;
+        use cglue::*;
+        #[cglue_trait_ext]
+        pub trait Shape { fn area(&self, scale: u32) -> u32; fn grow(&mut self, by: u32); }
+        #[cglue_trait]
+        pub trait Own { fn own(&self) -> u32; }
+        cglue_trait_group!(XG, Own, { ext::Shape }, { pub trait Shape { fn area(&self, scale: u32) -> u32; fn grow(&mut self, by: u32); } });
+    }
+}
+pub mod x_arg {
+    pub mod foreign { pub trait Shape { fn area(&self, scale: u64) -> u32; fn grow(&mut self, by: u32); } }
+    pub mod glue {
+        use super::foreign::Shape;
+        use cglue::*;
+        #[cglue_trait_ext]
+        pub trait Shape { fn area(&self, scale: u64) -> u32; fn grow(&mut self, by: u32); }
+        #[cglue_trait]
+        pub trait Own { fn own(&self) -> u32; }
+        cglue_trait_group!(XG, Own, { ext::Shape }, { pub trait Shape { fn area(&self, scale: u64) -> u32; fn grow(&mut self, by: u32); } });
+    }
+}
+pub mod x_ret {
+    pub mod foreign { pub trait Shape { fn area(&self, scale: u32) -> u64; fn grow(&mut self, by: u32); } }
+    pub mod glue {
+        use super::foreign::Shape;
+        use cglue::*;
+        #[cglue_trait_ext]
+        pub trait Shape { fn area(&self, scale: u32) -> u64; fn grow(&mut self, by: u32); }
+        #[cglue_trait]
+        pub trait Own { fn own(&self) -> u32; }
+        cglue_trait_group!(XG, Own, { ext::Shape }, { pub trait Shape { fn area(&self, scale: u32) -> u64; fn grow(&mut self, by: u32); } });
+    }
+}
+pub mod x_recv {
+    pub mod foreign { pub trait Shape { fn area(&mut self, scale: u32) -> u32; fn grow(&mut self, by: u32); } }
+    pub mod glue {
+        use super::foreign::Shape;
+        use cglue::*;
+        #[cglue_trait_ext]
+        pub trait Shape { fn area(&mut self, scale: u32) -> u32; fn grow(&mut self, by: u32); }
+        #[cglue_trait]
+        pub trait Own { fn own(&self) -> u32; }
+        cglue_trait_group!(XG, Own, { ext::Shape }, { pub trait Shape { fn area(&mut self, scale: u32) -> u32; fn grow(&mut self, by: u32); } });
+    }
+}
+pub mod x_rename {
+    pub mod foreign { pub trait Shape { fn area2(&self, scale: u32) -> u32; fn grow(&mut self, by: u32); } }
+    pub mod glue {
+        use super::foreign::Shape;
+        use cglue::*;
+        #[cglue_trait_ext]
+        pub trait Shape { fn area2(&self, scale: u32) -> u32; fn grow(&mut self, by: u32); }
+        #[cglue_trait]
+        pub trait Own { fn own(&self) -> u32; }
+        cglue_trait_group!(XG, Own, { ext::Shape }, { pub trait Shape { fn area2(&self, scale: u32) -> u32; fn grow(&mut self, by: u32); } });
+    }
+}
+pub mod x_remove {
+    pub mod foreign { pub trait Shape { fn area(&self, scale: u32) -> u32; } }
+    pub mod glue {
+        use super::foreign::Shape;
+        use cglue::*;
+        #[cglue_trait_ext]
+        pub trait Shape { fn area(&self, scale: u32) -> u32; }
+        #[cglue_trait]
+        pub trait Own { fn own(&self) -> u32; }
+        cglue_trait_group!(XG, Own, { ext::Shape }, { pub trait Shape { fn area(&self, scale: u32) -> u32; } });
+    }
+}
+pub mod x_reorder {
+    pub mod foreign { pub trait Shape { fn grow(&mut self, by: u32); fn area(&self, scale: u32) -> u32; } }
+    pub mod glue {
+        use super::foreign::Shape;
+        use cglue::*;
+        #[cglue_trait_ext]
+        pub trait Shape { fn grow(&mut self, by: u32); fn area(&self, scale: u32) -> u32; }
+        #[cglue_trait]
+        pub trait Own { fn own(&self) -> u32; }
+        cglue_trait_group!(XG, Own, { ext::Shape }, { pub trait Shape { fn grow(&mut self, by: u32); fn area(&self, scale: u32) -> u32; } });
+    }
+}
+// ---- generic traits and associated-type bindings inside groups -------------------------------------
+build!(sbase, {
+    #[cglue_trait]
+    pub trait Store<T> { fn put(&mut self, key: u32, val: T) -> u32; fn len(&self) -> u32; }
+    #[cglue_trait]
+    pub trait Sink { type Item; fn push(&mut self, item: Self::Item, prio: u32); }
+    #[cglue_trait]
+    pub trait Plain { fn id(&self, x: u32) -> u32; }
+    cglue_trait_group!(Kv<T>, Store<T>, { Plain });
+    cglue_trait_group!(Out, Sink<Item = u32>, { Plain });
+    cglue_trait_group!(OptKv<T>, Plain, { Store<T> });
+});
+build!(ssame, {
+    #[cglue_trait]
+    pub trait Store<T> { fn put(&mut self, key: u32, val: T) -> u32; fn len(&self) -> u32; }
+    #[cglue_trait]
+    pub trait Sink { type Item; fn push(&mut self, item: Self::Item, prio: u32); }
+    #[cglue_trait]
+    pub trait Plain { fn id(&self, x: u32) -> u32; }
+    cglue_trait_group!(Kv<T>, Store<T>, { Plain });
+    cglue_trait_group!(Out, Sink<Item = u32>, { Plain });
+    cglue_trait_group!(OptKv<T>, Plain, { Store<T> });
+});
+build!(s_arg, {
+    #[cglue_trait]
+    pub trait Store<T> { fn put(&mut self, key: u64, val: T) -> u32; fn len(&self) -> u32; }
+    #[cglue_trait]
+    pub trait Sink { type Item; fn push(&mut self, item: Self::Item, prio: u64); }
+    #[cglue_trait]
+    pub trait Plain { fn id(&self, x: u32) -> u32; }
+    cglue_trait_group!(Kv<T>, Store<T>, { Plain });
+    cglue_trait_group!(Out, Sink<Item = u32>, { Plain });
+    cglue_trait_group!(OptKv<T>, Plain, { Store<T> });
+});
+build!(s_ret, {
+    #[cglue_trait]
+    pub trait Store<T> { fn put(&mut self, key: u32, val: T) -> u64; fn len(&self) -> u32; }
+    #[cglue_trait]
+    pub trait Sink { type Item; fn push(&mut self, item: Self::Item, prio: u32) -> u32; }
+    #[cglue_trait]
+    pub trait Plain { fn id(&self, x: u32) -> u32; }
+    cglue_trait_group!(Kv<T>, Store<T>, { Plain });
+    cglue_trait_group!(Out, Sink<Item = u32>, { Plain });
+    cglue_trait_group!(OptKv<T>, Plain, { Store<T> });
+});
+build!(s_rename, {
+    #[cglue_trait]
+    pub trait Store<T> { fn put2(&mut self, key: u32, val: T) -> u32; fn len(&self) -> u32; }
+    #[cglue_trait]
+    pub trait Sink { type Item; fn push2(&mut self, item: Self::Item, prio: u32); }
+    #[cglue_trait]
+    pub trait Plain { fn id(&self, x: u32) -> u32; }
+    cglue_trait_group!(Kv<T>, Store<T>, { Plain });
+    cglue_trait_group!(Out, Sink<Item = u32>, { Plain });
+    cglue_trait_group!(OptKv<T>, Plain, { Store<T> });
+});
+build!(s_add, {
+    #[cglue_trait]
+    pub trait Store<T> { fn put(&mut self, key: u32, val: T) -> u32; fn len(&self) -> u32; fn more(&self); }
+    #[cglue_trait]
+    pub trait Sink { type Item; fn push(&mut self, item: Self::Item, prio: u32); fn more(&self); }
+    #[cglue_trait]
+    pub trait Plain { fn id(&self, x: u32) -> u32; }
+    cglue_trait_group!(Kv<T>, Store<T>, { Plain });
+    cglue_trait_group!(Out, Sink<Item = u32>, { Plain });
+    cglue_trait_group!(OptKv<T>, Plain, { Store<T> });
+});
+build!(s_recv, {
+    #[cglue_trait]
+    pub trait Store<T> { fn put(&self, key: u32, val: T) -> u32; fn len(&self) -> u32; }
+    #[cglue_trait]
+    pub trait Sink { type Item; fn push(&self, item: Self::Item, prio: u32); }
+    #[cglue_trait]
+    pub trait Plain { fn id(&self, x: u32) -> u32; }
+    cglue_trait_group!(Kv<T>, Store<T>, { Plain });
+    cglue_trait_group!(Out, Sink<Item = u32>, { Plain });
+    cglue_trait_group!(OptKv<T>, Plain, { Store<T> });
+});
+
 fn case(name: &str, expect_valid: bool, a: &'static abi_stable::type_layout::TypeLayout, b: &'static abi_stable::type_layout::TypeLayout) {
     for (dir, x, y) in [("ab", a, b), ("ba", b, a)] {
         let v = compare_layouts(Some(x), Some(y));
@@ -315,6 +492,43 @@ fn main() {
     case("group_add_optional", false, grp!(gbase), grp!(g_add_optional));
     case("group_optional_to_mandatory", false, grp!(gbase), grp!(g_optional_to_mandatory));
     case("group_member_method_changed", false, grp!(gbase), grp!(g_member_method_changed));
+    macro_rules! xo { ($m:ident) => { <$m::glue::ShapeBox<'static> as StableAbi>::LAYOUT } }
+    macro_rules! xg { ($m:ident) => { <$m::glue::XGBox<'static> as StableAbi>::LAYOUT } }
+    case("ext_identical_object", true, xo!(xbase), xo!(xsame));
+    case("ext_identical_group", true, xg!(xbase), xg!(xsame));
+    case("ext_object_arg_type", false, xo!(xbase), xo!(x_arg));
+    case("ext_object_ret_type", false, xo!(xbase), xo!(x_ret));
+    case("ext_object_receiver", false, xo!(xbase), xo!(x_recv));
+    case("ext_object_rename", false, xo!(xbase), xo!(x_rename));
+    case("ext_object_remove", false, xo!(xbase), xo!(x_remove));
+    case("ext_object_reorder", false, xo!(xbase), xo!(x_reorder));
+    case("ext_group_arg_type", false, xg!(xbase), xg!(x_arg));
+    case("ext_group_ret_type", false, xg!(xbase), xg!(x_ret));
+    case("ext_group_receiver", false, xg!(xbase), xg!(x_recv));
+    case("ext_group_rename", false, xg!(xbase), xg!(x_rename));
+    case("ext_group_remove", false, xg!(xbase), xg!(x_remove));
+    macro_rules! kv { ($m:ident) => { <$m::KvBox<'static, u32> as StableAbi>::LAYOUT } }
+    macro_rules! okv { ($m:ident) => { <$m::OptKvBox<'static, u32> as StableAbi>::LAYOUT } }
+    macro_rules! st { ($m:ident) => { <$m::StoreBox<'static, u32> as StableAbi>::LAYOUT } }
+    macro_rules! out { ($m:ident) => { <$m::OutBox<'static> as StableAbi>::LAYOUT } }
+    case("generic_identical_group", true, kv!(sbase), kv!(ssame));
+    case("generic_identical_opt_group", true, okv!(sbase), okv!(ssame));
+    case("generic_identical_object", true, st!(sbase), st!(ssame));
+    case("assoc_identical_group", true, out!(sbase), out!(ssame));
+    case("generic_group_other_param", false, kv!(sbase), <sbase::KvBox<'static, u64> as StableAbi>::LAYOUT);
+    case("generic_group_arg_type", false, kv!(sbase), kv!(s_arg));
+    case("generic_group_ret_type", false, kv!(sbase), kv!(s_ret));
+    case("generic_group_rename", false, kv!(sbase), kv!(s_rename));
+    case("generic_group_add", false, kv!(sbase), kv!(s_add));
+    case("generic_group_receiver", false, kv!(sbase), kv!(s_recv));
+    case("generic_opt_group_arg_type", false, okv!(sbase), okv!(s_arg));
+    case("generic_opt_group_rename", false, okv!(sbase), okv!(s_rename));
+    case("generic_object_arg_type", false, st!(sbase), st!(s_arg));
+    case("assoc_group_arg_type", false, out!(sbase), out!(s_arg));
+    case("assoc_group_ret_type", false, out!(sbase), out!(s_ret));
+    case("assoc_group_rename", false, out!(sbase), out!(s_rename));
+    case("assoc_group_add", false, out!(sbase), out!(s_add));
+    case("assoc_group_receiver", false, out!(sbase), out!(s_recv));
     // VerifyLayout::check::<T>: the verdict depends on T, also when the same description was accepted for another T before
     {
         let desc = iface!(same);
